@@ -76,6 +76,18 @@ def gen_cases(rng, n_per_kind, n_perturb):
             if 'D' in c and not c['D']['Q']:
                 continue
             cases.append(c)
+    # reverse exercise: reference DFAs without accepting states / over an alphabet that contains the (legal) symbol '_'
+    for _ in range(max(2, n_per_kind // 2)):
+        d = G.random_dfa(rng, rng.randint(1, 3), rng.choice(['a_', '_', 'ab']))
+        if rng.random() < 0.7:
+            d['F'] = []
+        cases.append({'ex': 'reverse', 'seed': rng.randrange(10 ** 9), 'perturb': n_perturb, 'length': 3, 'D': d, 'max_states': 0})
+    # product exercises: an answer with one extra, unreachable, total, non-accepting state of which only one component is a real state
+    for kind in ('union', 'intersection', 'symdiff'):
+        for _ in range(max(2, n_per_kind // 3)):
+            sigma = rng.choice(['ab', 'a'])
+            cases.append({'ex': kind, 'seed': rng.randrange(10 ** 9), 'perturb': n_perturb, 'length': 3, 'bogus_state': True,
+                          'D1': G.random_dfa(rng, rng.randint(1, 3), sigma), 'D2': G.random_dfa(rng, rng.randint(1, 3), sigma, names=['p%d' % i for i in range(rng.randint(1, 3))])})
     return cases
 
 
@@ -325,6 +337,11 @@ def observe(c):
             if not dfa_accepts_word(Dm, w):
                 answers.append({'text': '(%s)+%s' % (own, w), 'own': False})    # one extra word of length 5 / 6
                 break
+    if c.get('bogus_state'):
+        half = rng.choice(['(%s,zz)' % c['D1']['Q'][0], '(zz,%s)' % c['D2']['Q'][0]])
+        lines = own.split('\n')
+        lines = [l + ' ' + half if l.startswith('states ') else l for l in lines] + ['%s %s %s' % (half, half, ' '.join(c['D1']['Sigma']))]
+        answers.insert(1, {'text': '\n'.join(lines), 'own': False})
     if ex == 'cyk' and c['perturb']:
         # a table that is correct but covers only a prefix of the word (rows missing)
         for k in range(1, len(info['word'])):
@@ -377,12 +394,12 @@ def encode_answer(c, o, a, must_ok_for_own=True):
     info = o['info']
     n = c['length']
     sy = L.Names()
-    for ch in 'abc':
+    for ch in 'abc_':
         sy(ch)
     X = a['parsed']
     # answers that parse but use symbols of several characters (e.g. a keyword name put in the alphabet line) are outside
     # the model's word representation: not decided here (C17 covers what the parser makes of them)
-    if isinstance(X, dict) and 'Sigma' in X and 'R' not in X and any(len(sx) != 1 or sx not in 'abc' for sx in X['Sigma']):
+    if isinstance(X, dict) and 'Sigma' in X and 'R' not in X and any(len(sx) != 1 or sx not in 'abc_' for sx in X['Sigma']):
         return '0'
     if isinstance(X, dict) and 'delta' in X and 'eps' in X and any(len(e[1]) != 1 and e[1] != X['eps'] for e in X['delta']):
         return '0'
@@ -390,12 +407,12 @@ def encode_answer(c, o, a, must_ok_for_own=True):
         words = _words(_parse_word_list(info['words']), sy)
         if ex == 'words_dfa':
             ans = 'None'
-            if X is not None and all(s in 'abc' for s in X['Sigma']):
+            if X is not None and all(s in 'abc_' for s in X['Sigma']):
                 ans = '(Some %s)' % L.dfa(X, L.state_names(X), sy)
             return 'j_dfa_words %s %d %d %s %s %s' % (ans, n, c['max_states'], words, p, m)
         if ex == 'words_nfa':
             ans = 'None'
-            if X is not None and all(s in 'abc' for s in X['Sigma']) and all(e[1] in 'abc' or e[1] == X['eps'] for e in X['delta']):
+            if X is not None and all(s in 'abc_' for s in X['Sigma']) and all(e[1] in 'abc_' or e[1] == X['eps'] for e in X['delta']):
                 st = L.state_names(X)
                 f = lambda x: 90 if x == X['eps'] else sy(x)
                 delta = L.lst(L.pair(L.pair(L.nat(st(q)), L.nat(f(x))), L.nats(st(t) for t in ts)) for q, x, ts in X['delta'])
@@ -409,7 +426,7 @@ def encode_answer(c, o, a, must_ok_for_own=True):
         pt = {'union': 0, 'intersection': 1, 'symdiff': 2}[ex]
         s1, s2 = L.state_names(c['D1']), L.state_names(c['D2'])
         ans = 'None'
-        if X is not None and all(s in 'abc' for s in X['Sigma']):
+        if X is not None and all(s in 'abc_' for s in X['Sigma']):
             def pr(q):
                 inner = q[1:-1].split(',')
                 a1 = s1(inner[0]) if s1.known(inner[0]) else 70 + len(inner[0])
@@ -422,17 +439,17 @@ def encode_answer(c, o, a, must_ok_for_own=True):
         st = L.state_names(c['D'])
         D = L.dfa(c['D'], st, sy)
         if ex == 'complement':
-            ans = '(Some %s)' % L.dfa(X, st, sy) if X is not None and all(s in 'abc' for s in X['Sigma']) else 'None'
+            ans = '(Some %s)' % L.dfa(X, st, sy) if X is not None and all(s in 'abc_' for s in X['Sigma']) else 'None'
             return 'j_complement %s %s %s %s' % (D, ans, p, m)
         if ex == 'reverse':
             ans = 'None'
-            if X is not None and all(s in 'abc' for s in X['Sigma']) and all(e[1] in 'abc' or e[1] == X['eps'] for e in X['delta']):
+            if X is not None and all(s in 'abc_' for s in X['Sigma']) and all(e[1] in 'abc_' or e[1] == X['eps'] for e in X['delta']):
                 f = lambda x: 90 if x == X['eps'] else sy(x)
                 delta = L.lst(L.pair(L.pair(L.nat(st(q)), L.nat(f(x))), L.nats(st(t) for t in ts)) for q, x, ts in X['delta'])
                 ans = '(Some (mkNFA %s %s %s %s %s 90))' % (L.nats(st(q) for q in X['Q']), L.nats(sy(x) for x in X['Sigma']), delta, L.nat(st(X['q0'])), L.nats(st(q) for q in X['F']))
             return 'j_reverse %d %s %s %s %s' % (n, D, ans, p, m)
         if ex in ('minimal', 'hopcroft'):
-            ans = '(Some %s)' % L.dfa(X, L.state_names(X), sy) if X is not None and all(s in 'abc' for s in X['Sigma']) else 'None'
+            ans = '(Some %s)' % L.dfa(X, L.state_names(X), sy) if X is not None and all(s in 'abc_' for s in X['Sigma']) else 'None'
             return 'j_minimal %d %s %s %s %s' % (n, D, ans, p, m)
         ans = L.option(X, L.re) if X is None or _re_ok(X) else 'None'
         return 'j_dfa2regexp %d %s %s %s %s' % (n, D, ans, p, m)
@@ -443,7 +460,7 @@ def encode_answer(c, o, a, must_ok_for_own=True):
         delta = L.lst(L.pair(L.pair(L.nat(st(q)), L.nat(f(x))), L.nats(st(t) for t in ts)) for q, x, ts in N['delta'])
         Nl = '(mkNFA %s %s %s %s %s 90)' % (L.nats(st(q) for q in N['Q']), L.nats(sy(x) for x in N['Sigma']), delta, L.nat(st(N['q0'])), L.nats(st(q) for q in N['F']))
         ans = 'None'
-        if X is not None and all(s in 'abc' for s in X['Sigma']) and all(e[1] in 'abc' or e[1] == X['eps'] for e in X['delta']):
+        if X is not None and all(s in 'abc_' for s in X['Sigma']) and all(e[1] in 'abc_' or e[1] == X['eps'] for e in X['delta']):
             def ss(q):
                 label = q[1:-1] if re.fullmatch(r'{.*}', q) else q
                 parts = label.split(',') if label else []
